@@ -212,7 +212,7 @@ PROPS = {
             'write_indent / serialize_tuple_variant prologue / empty-collection fragments: see DESIGN.md section 0 "Emitter positions"',
             'write_folded_block: a long line is broken only at a run of spaces after a non-empty piece, exactly one space of the run is swallowed by the break, the next piece and the line itself start with neither space nor tab, and the pieces joined by single spaces are the original line',
         ],
-        not_covered=['the numeric-looking regex (uninterpreted) and parse_yaml11_bool (std string comparisons; uninterpreted), the body of a FOLDED block scalar as a whole (only its per-line folding is specified), the digits produced by the external crate zmij (assumed ASCII shortest round-trip text; the `.nan` / `.inf` / `-.inf` branches and the normalisation to YAML's float grammar ARE under contract: float_text), the reader side of the round trip',
+        not_covered=['the numeric-looking regex (uninterpreted) and parse_yaml11_bool (std string comparisons; uninterpreted), the body of a FOLDED block scalar as a whole (only its per-line folding is specified), the digits produced by the external crate zmij (assumed ASCII shortest round-trip text; the `.nan` / `.inf` / `-.inf` branches and the normalisation to the float grammar of YAML ARE under contract: float_text), the reader side of the round trip',
                      'both C12 observations an independent reviewer made while seeding are now contract-detected and fixed: trailing blank (F12) and block-scalar indentation indicators in nested positions (F15)'],
         assumptions=['fmt::Write is an append-only sink (contracts/quoting.shim.rs); write! with {:02X}/{:04X} prints upper-case hex; char::is_control is category Cc',
                      'std str operations of the predicates behave as their shims say (contracts/plain.shim.rs); that plain_reads_back is SUFFICIENT for a YAML reader is not proved (no reader semantics) - it is the list of necessary conditions of the YAML spec',
